@@ -164,6 +164,21 @@ PROPS = {
   'essential_classes': ['reply:correct', 'reply:wrong-id', 'reply:no-status-wrong-id', 'reply:right-link-altered', 'altered:shared-right-link', 'altered:last-shared-right-link', 'reply:other-input-hash', 'reply:shape-flip', 'reply:other-aggr-time', 'api:async', 'api:extend(pubRec)', 'api:extendTo',
                         'src:nocal', 'src:cal+pub', 'src:cal+auth', 'target:earlier', 'target:head', 'outcome:success', 'outcome:error'],
   'assumptions': ['simulated calendar is coherent in the way real calendars are (left subtrees never change)'],
+ }, 'C20': {
+  'technique': 'property-based testing (rapidcheck) over composed URIs with observation at the simulated transport boundary (getaddrinfo / CURLOPT_URL / request bytes, reference HMAC)',
+  'level_text': 'URIs are composed from every scheme (each letter in either case), optional user:key, host forms (names incl. underscore, IPv4, bracketed IPv6), ports (absent, 1, 65535, random), path, query, fragment, '
+                'with none / one / both explicit credentials, for the blocking aggregator and extender and the asynchronous signing and extending services. What reaches the transport is compared with the statement: transport chosen, '
+                'URL = scheme-rewritten original without user-info and otherwise identical, host/port given to name resolution, login id and MAC key (reference HMAC) = explicit else embedded, no credential token in URL or host; '
+                'the file scheme consumes the file (blocking) and file / unknown schemes are refused by the asynchronous service.',
+  'level_note': 'Trusted: sim/simsock.cpp, sim/fakecurl.cpp (record exactly what the SDK passes to getaddrinfo / libcurl), ref/pdu.cpp.',
+  'rule': 'rapidcheck choice strings -> (scheme x case pattern, embedded credentials, host form, port class, path, query, fragment, explicit credential subset, service kind). Non-trivial = embedded credentials or a non-lower-case scheme; '
+          'distinct = distinct (service, URI, explicit subset).',
+  'quick': {'cases': 8000, 'max_size': 120, 'wall_s': 600},
+  'thorough': {'cases': 160000, 'max_size': 150, 'wall_s': 2400},
+  'sim': ['simsock', 'fakecurl', 'simclock'],
+  'essential_classes': ['scheme:ksi', 'scheme:ksi+http', 'scheme:ksi+https', 'scheme:ksi+tcp', 'scheme:file', 'scheme:http', 'scheme:x-unknown', 'embedded-credentials', 'mixed-case-scheme', 'host:ipv6', 'port:boundary', 'async-refusal',
+                        'service:blocking-aggregator', 'service:blocking-extender', 'service:async-signing', 'service:async-extending', 'explicit:U-', 'explicit:-K', 'explicit:UK', 'explicit:--'],
+  'assumptions': ['ports are generated as canonical decimals; percent-encoding in user-info is not generated'],
  },
 }
 
